@@ -124,6 +124,37 @@ CLAIMS.update({
         design_ref="DESIGN.md §9 C07", note=RUN_NOTE),
 })
 
+
+CLAIMS.update({
+    "C12": dict(
+        text="Theorem C12_roundtrip (all programs with well-formed names, all layouts: any indentation widths per block, "
+             "blank and comment-only lines, trailing blanks and comments, CRLF, missing final newline, struct literals over "
+             "several lines): front_end (render L p) = p for the Gallina front end (denter transliterated from DenterHelper, "
+             "token parser for PFDLParser.g4 building the model the way pfdl_tree_visitor.py does, precedence-climbing "
+             "expression parser with the level table REGENERATED from PFDLParser.py on every run); C12_denter_layout_independent; "
+             "C12_expr_roundtrip_any_table. The characters-to-lexemes level, ANTLR's ATN and error recovery are not modelled: the "
+             "illegal-character clause is established on the code by correspondence only (all single illegal-character insertions "
+             "at sampled positions). Correspondence: parse_string vs the generating AST field by field under 20 layouts per "
+             "program, real lexer token stream vs Gallina denter, Gallina front_end vs the code incl. mutated texts. D13 (illegal "
+             "characters dropped) was found and fixed; D14 (precedence split) is a KNOWN-FINDING.",
+        technique="Coq proof (round trip by induction over programs and layouts; regenerated grammar tables with reflexivity "
+                  "obligations) + differential correspondence on generated texts and layouts",
+        design_ref="DESIGN.md §9 C12, docs/front_component.md"),
+    "C18": dict(
+        text="PARTIAL. Proved on the reference semantics (all programs and interleaved histories): two scheduler instances driven "
+             "by one interleaved history behave exactly like the two driven separately (C18_two_schedulers_independent_partial); "
+             "the models are functions of the case, so repeating a run reproduces it. State shared through the Python runtime "
+             "(class / module attributes, mutable defaults), text vs file path, drawing, identifier mode and observers cannot be "
+             "expressed by a Gallina model: they are exercised on the implementation by a configuration sweep - every generated "
+             "case is replayed as file path, with UUIDs, with observers, with other schedulers created before and after and driven "
+             "in between (their own runs compared with runs alone, cross-addressed events must be rejected), with stray tabs, all "
+             "combined, repeated, and with drawing for a few cases; notification sequences must be equal after first-occurrence "
+             "renaming. The baseline run is tied to both Coq models.",
+        technique="Coq proof (product of two model instances) + configuration sweep on the implementation + differential "
+                  "correspondence of the baseline with two executable models",
+        design_ref="DESIGN.md §9 C18", note=RUN_NOTE),
+})
+
 NOT_YET = "check not built yet in this revision (see DESIGN.md §11 staging); will be claimed when its theorem and correspondence slice exist"
 
 
